@@ -304,5 +304,33 @@ Definition spherical_integrand (F : T -> T -> T -> T) (r cos_theta phi : T) : T 
 Definition integrate_3d_spherical (m : method) (F : T -> T -> T -> T) (r1 r2 c1 c2 phi1 phi2 : T) (p : Z) : res T :=
   integrate_3d m (spherical_integrand F) r1 r2 c1 c2 phi1 phi2 p.
 
+(** ** Call histories.  Sections 1.1-1.3 and 2.1 of Integration.cpp declare no static and no global object (the statics of the
+    file belong to the Monte-Carlo integrators of section 2.2, property C14), and Compute_Gauss_Legendre_Roots_and_Weights builds its
+    table of roots and weights anew in every call.  A process that makes several calls one after the other therefore answers
+    each of them by the function above of that call's own arguments; a call that terminates the process is the last one. *)
+Inductive call :=
+| Call_1d (m : method) (p : Z) (f : T -> res T) (a b : T)
+| Call_2d (m : method) (p : Z) (f : T -> T -> T) (x1 x2 y1 y2 : T)
+| Call_3d (m : method) (p : Z) (f : T -> T -> T -> T) (x1 x2 y1 y2 z1 z2 : T)
+| Call_spherical (m : method) (p : Z) (F : T -> T -> T -> T) (r1 r2 c1 c2 phi1 phi2 : T).
+
+Definition run_call (c : call) : res T :=
+  match c with
+  | Call_1d m p f a b => integrate_named m f a b p
+  | Call_2d m p f x1 x2 y1 y2 => integrate_2d m f x1 x2 y1 y2 p
+  | Call_3d m p f x1 x2 y1 y2 z1 z2 => integrate_3d m f x1 x2 y1 y2 z1 z2 p
+  | Call_spherical m p F r1 r2 c1 c2 phi1 phi2 => integrate_3d_spherical m F r1 r2 c1 c2 phi1 phi2 p
+  end.
+
+Fixpoint run_session (cs : list call) : list (res T) :=
+  match cs with
+  | [] => []
+  | c :: rest =>
+      match run_call c with
+      | Exit => [Exit]
+      | r => r :: run_session rest
+      end
+  end.
+
 End Named.
 End Model.
